@@ -20,9 +20,9 @@
 (* violate an invariant (MC_Threads_bug_*.cfg): the model is not vacuous.    *)
 EXTENDS ThreadRules, TLC
 CONSTANTS NT, NI, NK, NC, Bug
-VARIABLES pc, z, incs, rd, cache, lock, row, cnt, ins, next, cur, done, iolock, pos, got, acc, tmp, red, result, call, active
+VARIABLES pc, z, incs, rd, cache, lock, row, cnt, ins, next, cur, done, iolock, pos, got, acc, tmp, red, result, call, active, writer, torn, nested
 
-vars == << pc, z, incs, rd, cache, lock, row, cnt, ins, next, cur, done, iolock, pos, got, acc, tmp, red, result, call, active >>
+vars == << pc, z, incs, rd, cache, lock, row, cnt, ins, next, cur, done, iolock, pos, got, acc, tmp, red, result, call, active, writer, torn, nested >>
 Thr == 1..NT
 Items == 1..NI
 Keys == 1..NK
@@ -33,7 +33,7 @@ RECURSIVE SumTo(_)
 SumTo(i) == IF i = 0 THEN 0 ELSE Data(i) * Row(KeyOf(i)) + SumTo(i - 1)
 Expected == SumTo(NI)               \* the single-thread result
 
-Init == /\ call = 1 /\ active = NT
+Init == /\ call = 1 /\ active = NT /\ writer = 0 /\ torn = FALSE /\ nested = "no"
         /\ pc = [t \in Thr |-> "read"] /\ z = ZNew /\ incs = {} /\ rd = [t \in Thr |-> FALSE]
         /\ cache = [k \in Keys |-> 0] /\ lock = [k \in Keys |-> 0] /\ row = [t \in Thr |-> 0] /\ cnt = [t \in Thr |-> 0]
         /\ ins = [k \in Keys |-> 0] /\ next = 1 /\ cur = [t \in Thr |-> 0] /\ done = [i \in Items |-> 0]
@@ -46,56 +46,71 @@ K(t) == KeyOf(cur[t])
 \* ---------------------------------------------------------------- (a) lazy table
 ReadFlag(t) == /\ pc[t] = "read" /\ rd' = [rd EXCEPT ![t] = z.flag]            \* omp atomic read
                /\ Goto(t, IF z.flag THEN "use" ELSE "enter")
-               /\ UNCHANGED << z, incs, cache, lock, row, cnt, ins, next, cur, done, iolock, pos, got, acc, tmp, red, result, call, active >>
+               /\ UNCHANGED << z, incs, cache, lock, row, cnt, ins, next, cur, done, iolock, pos, got, acc, tmp, red, result, call, active, writer, torn, nested >>
 EnterCritical(t) == /\ pc[t] = "enter" /\ (Bug = "nocritical" \/ incs = {})     \* omp critical(NAME)
                     /\ incs' = incs \cup {t} /\ Goto(t, "recheck")
-                    /\ UNCHANGED << z, rd, cache, lock, row, cnt, ins, next, cur, done, iolock, pos, got, acc, tmp, red, result, call, active >>
+                    /\ UNCHANGED << z, rd, cache, lock, row, cnt, ins, next, cur, done, iolock, pos, got, acc, tmp, red, result, call, active, writer, torn, nested >>
 RecheckFlag(t) == /\ pc[t] = "recheck"
                   /\ Goto(t, IF z.flag THEN "leave" ELSE IF Bug = "flagfirst" THEN "setflag" ELSE "fill1")
-                  /\ UNCHANGED << z, incs, rd, cache, lock, row, cnt, ins, next, cur, done, iolock, pos, got, acc, tmp, red, result, call, active >>
+                  /\ UNCHANGED << z, incs, rd, cache, lock, row, cnt, ins, next, cur, done, iolock, pos, got, acc, tmp, red, result, call, active, writer, torn, nested >>
 Fill1(t) == /\ pc[t] = "fill1" /\ z' = ZFillBegin(z) /\ Goto(t, "fill2")
-            /\ UNCHANGED << incs, rd, cache, lock, row, cnt, ins, next, cur, done, iolock, pos, got, acc, tmp, red, result, call, active >>
+            /\ UNCHANGED << incs, rd, cache, lock, row, cnt, ins, next, cur, done, iolock, pos, got, acc, tmp, red, result, call, active, writer, torn, nested >>
 Fill2(t) == /\ pc[t] = "fill2" /\ z' = ZFillEnd(z) /\ Goto(t, IF Bug = "flagfirst" THEN "leave" ELSE "setflag")
-            /\ UNCHANGED << incs, rd, cache, lock, row, cnt, ins, next, cur, done, iolock, pos, got, acc, tmp, red, result, call, active >>
+            /\ UNCHANGED << incs, rd, cache, lock, row, cnt, ins, next, cur, done, iolock, pos, got, acc, tmp, red, result, call, active, writer, torn, nested >>
 SetFlag(t) == /\ pc[t] = "setflag" /\ z' = ZSetFlag(z) /\ Goto(t, IF Bug = "flagfirst" THEN "fill1" ELSE "leave")   \* omp atomic write
-              /\ UNCHANGED << incs, rd, cache, lock, row, cnt, ins, next, cur, done, iolock, pos, got, acc, tmp, red, result, call, active >>
+              /\ UNCHANGED << incs, rd, cache, lock, row, cnt, ins, next, cur, done, iolock, pos, got, acc, tmp, red, result, call, active, writer, torn, nested >>
 LeaveCritical(t) == /\ pc[t] = "leave" /\ incs' = incs \ {t} /\ Goto(t, "use")
-                    /\ UNCHANGED << z, rd, cache, lock, row, cnt, ins, next, cur, done, iolock, pos, got, acc, tmp, red, result, call, active >>
-UseTable(t) == /\ pc[t] = "use" /\ Goto(t, "take")
-               /\ UNCHANGED << z, incs, rd, cache, lock, row, cnt, ins, next, cur, done, iolock, pos, got, acc, tmp, red, result, call, active >>
+                    /\ UNCHANGED << z, rd, cache, lock, row, cnt, ins, next, cur, done, iolock, pos, got, acc, tmp, red, result, call, active, writer, torn, nested >>
+UseTable(t) == /\ pc[t] = "use" /\ Goto(t, "logb")
+               /\ UNCHANGED << z, incs, rd, cache, lock, row, cnt, ins, next, cur, done, iolock, pos, got, acc, tmp, red, result, call, active, writer, torn, nested >>
+
+\* ---------------------------------------------------------------- messages (info / warning through writeText)
+\* a message is written in several pieces to the shared channel; critical(TEXTWRITER) makes it arrive whole
+LogBegin(t) == /\ pc[t] = "logb" /\ (Bug = "notextlock" \/ writer = 0)
+               /\ torn' = (torn \/ writer # 0) /\ writer' = t /\ Goto(t, "loge")
+               /\ UNCHANGED << z, incs, rd, cache, lock, row, cnt, ins, next, cur, done, iolock, pos, got, acc, tmp, red, result, call, active, nested >>
+LogEnd(t) == /\ pc[t] = "loge" /\ writer' = (IF writer = t THEN 0 ELSE writer) /\ Goto(t, "take")
+             /\ UNCHANGED << z, incs, rd, cache, lock, row, cnt, ins, next, cur, done, iolock, pos, got, acc, tmp, red, result, call, active, torn, nested >>
+\* ---------------------------------------------------------------- a caller inside the parallel region
+\* start_accumulating_in_new_target() called by a thread of the team: the guard "omp_get_num_threads() != 1 => error"
+\* refuses it and nothing changes (Bug "noguard": it clears the accumulators under the feet of the other threads)
+NestedCall(t) == /\ pc[t] = "take" /\ t = NT /\ NT > 1 /\ nested = "no" /\ call = 1
+                 /\ IF Bug = "noguard" THEN acc' = [u \in Thr |-> 0] /\ nested' = "executed"
+                    ELSE UNCHANGED acc /\ nested' = "refused"
+                 /\ UNCHANGED << pc, z, incs, rd, cache, lock, row, cnt, ins, next, cur, done, iolock, pos, got, tmp, red, result, call, active, writer, torn >>
 
 \* ---------------------------------------------------------------- (c) dynamic work distribution
 Take(t) == /\ pc[t] = "take"
            /\ IF next <= NI THEN /\ cur' = [cur EXCEPT ![t] = next] /\ next' = next + 1 /\ Goto(t, "seek")
               ELSE /\ UNCHANGED << cur, next >> /\ Goto(t, "idle")
-           /\ UNCHANGED << z, incs, rd, cache, lock, row, cnt, ins, done, iolock, pos, got, acc, tmp, red, result, call, active >>
+           /\ UNCHANGED << z, incs, rd, cache, lock, row, cnt, ins, done, iolock, pos, got, acc, tmp, red, result, call, active, writer, torn, nested >>
 
 \* ---------------------------------------------------------------- (d) stream I/O: seek, then read
 Seek(t) == /\ pc[t] = "seek" /\ (Bug = "noiolock" \/ iolock = 0)              \* omp critical(PROJDATAFROMSTREAMIO)
            /\ iolock' = (IF Bug = "noiolock" THEN 0 ELSE t) /\ pos' = cur[t] /\ Goto(t, "readio")
-           /\ UNCHANGED << z, incs, rd, cache, lock, row, cnt, ins, next, cur, done, got, acc, tmp, red, result, call, active >>
+           /\ UNCHANGED << z, incs, rd, cache, lock, row, cnt, ins, next, cur, done, got, acc, tmp, red, result, call, active, writer, torn, nested >>
 ReadIO(t) == /\ pc[t] = "readio" /\ got' = [got EXCEPT ![t] = Data(pos)] /\ iolock' = 0 /\ Goto(t, "lockL")
-             /\ UNCHANGED << z, incs, rd, cache, lock, row, cnt, ins, next, cur, done, pos, acc, tmp, red, result, call, active >>
+             /\ UNCHANGED << z, incs, rd, cache, lock, row, cnt, ins, next, cur, done, pos, acc, tmp, red, result, call, active, writer, torn, nested >>
 
 \* ---------------------------------------------------------------- (b) row cache
 LockLookup(t) == /\ pc[t] = "lockL" /\ lock[K(t)] = 0 /\ lock' = [lock EXCEPT ![K(t)] = t] /\ Goto(t, "find")  \* omp_set_lock
-                 /\ UNCHANGED << z, incs, rd, cache, row, cnt, ins, next, cur, done, iolock, pos, got, acc, tmp, red, result, call, active >>
+                 /\ UNCHANGED << z, incs, rd, cache, row, cnt, ins, next, cur, done, iolock, pos, got, acc, tmp, red, result, call, active, writer, torn, nested >>
 Find(t) == /\ pc[t] = "find" /\ lock' = [lock EXCEPT ![K(t)] = 0]
            /\ IF cache[K(t)] # 0 THEN /\ row' = [row EXCEPT ![t] = cache[K(t)]] /\ Goto(t, "acc")
               ELSE /\ UNCHANGED row /\ Goto(t, "compute")
-           /\ UNCHANGED << z, incs, rd, cache, cnt, ins, next, cur, done, iolock, pos, got, acc, tmp, red, result, call, active >>
+           /\ UNCHANGED << z, incs, rd, cache, cnt, ins, next, cur, done, iolock, pos, got, acc, tmp, red, result, call, active, writer, torn, nested >>
 Compute(t) == /\ pc[t] = "compute" /\ row' = [row EXCEPT ![t] = Row(K(t))] /\ Goto(t, "lockI")   \* outside the lock
-              /\ UNCHANGED << z, incs, rd, cache, lock, cnt, ins, next, cur, done, iolock, pos, got, acc, tmp, red, result, call, active >>
+              /\ UNCHANGED << z, incs, rd, cache, lock, cnt, ins, next, cur, done, iolock, pos, got, acc, tmp, red, result, call, active, writer, torn, nested >>
 LockInsert(t) == /\ pc[t] = "lockI" /\ (Bug = "nolock" \/ lock[K(t)] = 0)
                  /\ lock' = (IF Bug = "nolock" THEN lock ELSE [lock EXCEPT ![K(t)] = t]) /\ Goto(t, "count")
-                 /\ UNCHANGED << z, incs, rd, cache, row, cnt, ins, next, cur, done, iolock, pos, got, acc, tmp, red, result, call, active >>
+                 /\ UNCHANGED << z, incs, rd, cache, row, cnt, ins, next, cur, done, iolock, pos, got, acc, tmp, red, result, call, active, writer, torn, nested >>
 Count(t) == /\ pc[t] = "count" /\ cnt' = [cnt EXCEPT ![t] = IF cache[K(t)] # 0 THEN 1 ELSE 0] /\ Goto(t, "insert")
-            /\ UNCHANGED << z, incs, rd, cache, lock, row, ins, next, cur, done, iolock, pos, got, acc, tmp, red, result, call, active >>
+            /\ UNCHANGED << z, incs, rd, cache, lock, row, ins, next, cur, done, iolock, pos, got, acc, tmp, red, result, call, active, writer, torn, nested >>
 Insert(t) == /\ pc[t] = "insert"
              /\ cache' = (IF cache[K(t)] = 0 THEN [cache EXCEPT ![K(t)] = row[t]] ELSE cache)    \* no-op if present
              /\ ins' = (IF cnt[t] = 0 THEN [ins EXCEPT ![K(t)] = @ + 1] ELSE ins)              \* inserts that believed to be effective
              /\ lock' = (IF Bug = "nolock" THEN lock ELSE [lock EXCEPT ![K(t)] = 0]) /\ Goto(t, "acc")
-             /\ UNCHANGED << z, incs, rd, row, cnt, next, cur, done, iolock, pos, got, tmp, acc, red, result, call, active >>
+             /\ UNCHANGED << z, incs, rd, row, cnt, next, cur, done, iolock, pos, got, tmp, acc, red, result, call, active, writer, torn, nested >>
 
 \* ---------------------------------------------------------------- (c) per-thread accumulators, reduction
 Slot(t) == IF Bug = "sharedacc" THEN 1 ELSE t
@@ -104,15 +119,15 @@ Accumulate(t) == /\ pc[t] = "acc"
                     THEN /\ tmp' = [tmp EXCEPT ![t] = acc[1]] /\ Goto(t, "acc2") /\ UNCHANGED << acc, done >>    \* read ... (not atomic)
                     ELSE /\ acc' = [acc EXCEPT ![t] = @ + got[t] * row[t]] /\ done' = [done EXCEPT ![cur[t]] = @ + 1]
                          /\ Goto(t, "take") /\ UNCHANGED tmp
-                 /\ UNCHANGED << z, incs, rd, cache, lock, row, cnt, ins, next, cur, iolock, pos, got, red, result, call, active >>
+                 /\ UNCHANGED << z, incs, rd, cache, lock, row, cnt, ins, next, cur, iolock, pos, got, red, result, call, active, writer, torn, nested >>
 Accumulate2(t) == /\ pc[t] = "acc2" /\ acc' = [acc EXCEPT ![1] = tmp[t] + got[t] * row[t]]                      \* ... modify, write
                   /\ done' = [done EXCEPT ![cur[t]] = @ + 1] /\ Goto(t, "take")
-                  /\ UNCHANGED << z, incs, rd, cache, lock, row, cnt, ins, next, cur, iolock, pos, got, tmp, red, result, call, active >>
+                  /\ UNCHANGED << z, incs, rd, cache, lock, row, cnt, ins, next, cur, iolock, pos, got, tmp, red, result, call, active, writer, torn, nested >>
 AllIdle == \A t \in Thr : pc[t] = "idle"
 Reduce == /\ AllIdle /\ red < NT                                                 \* after the join, by the master
           /\ red' = red + 1
           /\ result' = (IF Bug = "noreduce" /\ red + 1 = 1 THEN result ELSE result + acc[red + 1])
-          /\ UNCHANGED << pc, z, incs, rd, cache, lock, row, cnt, ins, next, cur, done, iolock, pos, got, acc, tmp, call, active >>
+          /\ UNCHANGED << pc, z, incs, rd, cache, lock, row, cnt, ins, next, cur, done, iolock, pos, got, acc, tmp, call, active, writer, torn, nested >>
 Reduced == AllIdle /\ red = NT
 \* the next call on the same objects, with any number of active threads; accumulators start from zero
 \* (Bug "staleacc": only the accumulators of the threads that will be active are cleared)
@@ -123,13 +138,13 @@ StartCall == /\ Reduced /\ call < NC
                   /\ pc' = [t \in Thr |-> IF t <= a THEN "take" ELSE "idle"]
                   /\ acc' = [t \in Thr |-> IF Bug = "staleacc" /\ t > a THEN acc[t] ELSE 0]
              /\ next' = 1 /\ done' = [i \in Items |-> 0] /\ red' = 0 /\ result' = 0
-             /\ UNCHANGED << z, incs, rd, cache, lock, row, cnt, ins, cur, iolock, pos, got, tmp >>
+             /\ UNCHANGED << z, incs, rd, cache, lock, row, cnt, ins, cur, iolock, pos, got, tmp, writer, torn, nested >>
 Finished == Reduced /\ call = NC
 Terminating == Finished /\ UNCHANGED vars
 
 Thread(t) == \/ ReadFlag(t) \/ EnterCritical(t) \/ RecheckFlag(t) \/ Fill1(t) \/ Fill2(t) \/ SetFlag(t) \/ LeaveCritical(t) \/ UseTable(t)
              \/ Take(t) \/ Seek(t) \/ ReadIO(t) \/ LockLookup(t) \/ Find(t) \/ Compute(t) \/ LockInsert(t) \/ Count(t) \/ Insert(t)
-             \/ Accumulate(t) \/ Accumulate2(t)
+             \/ Accumulate(t) \/ Accumulate2(t) \/ LogBegin(t) \/ LogEnd(t) \/ NestedCall(t)
 Next == (\E t \in Thr : Thread(t)) \/ Reduce \/ StartCall \/ Terminating
 Spec == Init /\ [][Next]_vars
 \* weak fairness of every thread and of the master: nothing stronger is assumed of the OpenMP runtime
@@ -167,6 +182,9 @@ SumAcc(t) == IF t = 0 THEN 0 ELSE acc[t] + SumAcc(t - 1)
 InvThisCallOnly == (AllIdle /\ red = 0) => (SumAcc(NT) = Expected /\ \A t \in Thr : t > active => acc[t] = 0)
 \* no lock is left behind
 InvLocksFree == AllIdle => (incs = {} /\ iolock = 0 /\ \A k \in Keys : lock[k] = 0)
+\* BEYOND THE NUMERIC CLAUSE: every message arrives whole; a guarded call inside the parallel region is never executed
+InvWhole == ~torn
+InvGuard == nested # "executed"
 \* termination under weak fairness (checked with SPECIFICATION FairSpec, never under a state constraint)
 Termination == <>Finished
 =============================================================================
